@@ -227,6 +227,14 @@ def gen_world(tape, tier):
     cns_stats["ci_lo"] = cns["log2"].to_numpy() - half
     cns_stats["ci_hi"] = cns["log2"].to_numpy() + half * rng.uniform(0.5, 1.5, size=len(cns))
     cns_stats["sem"] = rng.uniform(0.01, 0.4, size=len(cns))
+    # segmetrics-style columns in which no two neighbouring segments fall in the same
+    # gain / neutral / loss class: the `ci` and `sem` filters of `call` then merge nothing
+    cns_alt = cns.copy()
+    sign = np.where(np.arange(len(cns_alt)) % 2 == 0, 1.0, -1.0)
+    cns_alt["ci_lo"] = np.where(sign > 0, 0.1, -0.6)
+    cns_alt["ci_hi"] = np.where(sign > 0, 0.6, -0.1)
+    cns_alt["sem"] = 0.01
+    cns_alt["log2"] = np.where(sign > 0, 0.35, -0.35)
     meta = {"sample_id": "S1"}
     baits_df = frame(bait_rows, ["chromosome", "start", "end", "gene"])
     if rng.random() < 0.5:
@@ -320,6 +328,7 @@ def gen_world(tape, tier):
         "cns_relabelled": CNA(cns.set_axis(cns.index * 3 + 2), dict(meta)),
         "cns": CNA(cns, dict(meta)),
         "cns_stats": CNA(cns_stats, dict(meta)),
+        "cns_stats_alt": CNA(cns_alt, dict(meta)),
     }
     info = {
         "chroms": names, "chrom_sizes": chrom_sizes, "sample_female": sample_female,
